@@ -473,3 +473,41 @@ if m=='M31':  # the engine-wide cache is consulted before the dependencies of th
 		return early, nil
 	}
 ''')
+
+# ---- round 5: the caller's syntax tree / types.Info are arguments that Run only reads (decls.go: same-file rounds, tree observer)
+if m=='M32':  # the header of a range statement is printed by printing the statement with its body taken out for a moment
+    sub('runner.go','''		if n.Pos() == rng.Pos() {
+			buf.WriteString("for ")''','''		if n.Pos() == rng.Pos() && rng.Body != nil {
+			body := rng.Body
+			rng.Body = &ast.BlockStmt{}
+			var tmp bytes.Buffer
+			err := printer.Fprint(&tmp, rr.ctx.Fset, rng)
+			rng.Body = body
+			if err != nil {
+				return err
+			}
+			out := tmp.Bytes()
+			if i := bytes.LastIndexByte(out, '{'); i >= 0 {
+				out = bytes.TrimSpace(out[:i])
+			}
+			buf.Write(out)
+			return nil
+		}
+		if n.Pos() == rng.Pos() {
+			buf.WriteString("for ")''')
+if m=='M33':  # "not needed after type checking": Run drops the list of unresolved identifiers of the file it is handed
+    sub('runner.go','''	rr.collectImports(f)
+''','''	rr.collectImports(f)
+	f.Unresolved = nil
+''')
+if m=='M34':  # Run marks the file as seen in the caller's types.Info
+    sub('runner.go','''	rr.collectImports(f)
+''','''	rr.collectImports(f)
+	if rr.ctx.Types != nil && rr.ctx.Types.Types != nil {
+		rr.ctx.Types.Types[f.Name] = types.TypeAndValue{}
+	}
+''')
+    sub('runner.go','''	"go/token"
+''','''	"go/token"
+	"go/types"
+''')
